@@ -1,0 +1,30 @@
+//go:build verif
+
+package grpcsync
+
+// Contracts checked by /verif (contract-based deductive verification).
+// This file is comment-only; it is compiled only with -tags=verif.
+//
+// C57 (one-shot event). Fire runs under `opt interfere`: other goroutines may
+// change the atomic variable between any two of the function's own atomic
+// actions. nchanges/lastold/lastnew describe the value-changing actions
+// performed by this very call.
+//
+// Event.Fire reports true exactly when this call itself performed the
+// false->true transition (one atomic action), and closes the channel exactly
+// then. No action of Fire ever writes false, so among any number of concurrent
+// firers the variable goes false->true at most once and exactly one call
+// reports true.
+
+//@ func (*Event).Fire
+//@   prop C57
+//@   opt interfere
+//@   requires e != nil
+//@   ensures result == (nchanges("fired") == 1)
+//@   ensures nchanges("fired") <= 1 && implies(nchanges("fired") == 1, lastold("fired") == 0 && lastnew("fired") == 1)
+//@   assert at call close#1 nchanges("fired") == 1 && lastold("fired") == 0 && lastnew("fired") == 1 && arg0 == e.c
+
+//@ func (*Event).HasFired
+//@   prop C57
+//@   requires e != nil
+//@   ensures result == e.fired.Load()
